@@ -20,6 +20,7 @@ def run(ctx, rep):
         rep.analysed["bodies" + tag] = len(prog.bodies)
         reader(prog, rep, tag)
         addresses(prog, rep, spec, tag)
+        strings(prog, rep, tag)
         structs(ctx, prog, rep, spec, tag)
 
 
@@ -142,3 +143,62 @@ def structs(ctx, prog, rep, spec, tag):
         ok = got == w and total == want["_bytes"] * 8 and not problems
         rep.ob(P, "%s%s" % (name, tag), ok, "declared layout of %s %s equals the specification %s" % (name, got, w if not ok else ""), loc="%s:%s" % (os.path.relpath(its[0]["file"], ctx.repo), its[0]["line"]), how="table")
     rep.floor("C12 SII structures" + tag, n, 9)
+
+
+def _tyconst(op):
+    c = op.get("const") if isinstance(op, dict) else None
+    return c.get("tyconst") if isinstance(c, dict) else None
+
+
+def strings(prog, rep, tag):
+    """find_string::<N>: a string of every length 0..=N is returned (the too-long error is taken exactly when
+    len > N), the bytes read are exactly `len` bytes following the length byte, and exactly index-1 earlier
+    strings are skipped."""
+    P = "C12.string"
+    b = prog.async_body("SubDeviceEeprom::find_string")
+    pr = Prov(b)
+    d = {}
+    errs = q.aggregates(b, "Error", "StringTooLong")
+    exact = []
+    for cd in q.conds(b):
+        if cd.kind != "cmp":
+            continue
+        for (lhs, rhs, flip) in ((cd.lhs, cd.rhs, False), (cd.rhs, cd.lhs, True)):
+            if _tyconst(rhs) == "N" and has_root(pr.of_operand(lhs), "await", "EepromRange::read_byte"):
+                # edge on which  len > N  holds, and its complement on which len <= N holds
+                gt = "Lt" if flip else "Gt"
+                le = "Ge" if flip else "Le"
+                for tgt in {cd.true_target(), cd.false_target()} - {None}:
+                    if cd.holds_on(tgt, gt):
+                        other = cd.false_target() if tgt == cd.true_target() else cd.true_target()
+                        if cd.holds_on(other, le):
+                            exact.append((cd, tgt, other))
+    d["guard-is-len>N"] = len(exact) == 1
+    sl = [c for c in b.calls() if (c.decl_s or "").endswith("Vec::set_len") or c.is_("Vec::set_len")]
+    rx = [c for c in b.calls() if c.is_("Read::read_exact", "ReadExactFuture::read_exact") or (c.decl_s or "").endswith("::read_exact")]
+    if len(exact) == 1 and errs and len(sl) == 1 and rx:
+        cd, too_long, fits = exact[0]
+        dom_err = q.edge_dominated(b, cd.bb, too_long)
+        dom_ok = q.edge_dominated(b, cd.bb, fits)
+        d["error-only-when-longer"] = all(e[0] in dom_err for e in errs)
+        d["set_len-on-fits-edge"] = sl[0].bb in dom_ok and sl[0].bb not in dom_err
+        a = pr.of_operand(sl[0].args[1])
+        d["set_len(len)"] = has_root(a, "await", "EepromRange::read_byte") and not has_root(a, "binop", "Sub") and not has_root(a, "binop", "Add")
+        d["read-into-buf"] = all(sl[0].bb in b.dominators().get(c.bb, ()) for c in rx)
+    else:
+        d["anchors"] = False
+    rep.ob(P, "exact-fit-accepted" + tag, bool(d) and all(d.values()), "find_string::<N> fails with StringTooLong exactly on the edge len > N; on the other edge buf.set_len(len) and read_exact(buf) read the string's own bytes; %s" % d, loc=b.span)
+    # index handling: 0 -> None; skip exactly index-1 strings
+    d = {}
+    rng = [x for x in q.aggregates(b, "Range") if x[2]["rv"].get("args") == "[u8]"]
+    if len(rng) == 1:
+        st = rng[0][2]
+        end = pr.of_operand(st["rv"]["a"][1])
+        d["from-0"] = q.const_int(st["rv"]["a"][0]) == 0
+        d["to-index-1"] = has_root(end, "binop", "Sub") and has_root(end, "const", 1) and any(x[0] in ("arg", "upvar") and x[-1] == "search_index" for x in end)
+    else:
+        d["one-skip-loop"] = False
+    nones = [x for x in q.aggregates(b, "Option", "None")]
+    zero = [cd for cd in q.conds(b) if cd.kind == "cmp" and cd.op == "Eq" and q.const_int(cd.rhs) == 0 and any(x[0] in ("arg", "upvar") and x[-1] == "search_index" for x in pr.of_operand(cd.lhs))]
+    d["index-0-is-none"] = len(zero) == 1 and bool(nones)
+    rep.ob(P, "skip-index-minus-one" + tag, all(d.values()), "string index i (1-based) skips exactly i-1 earlier strings (loop 0..i-1, each skipped by its own length byte); index 0 is None; %s" % d, loc=b.span, how="dataflow")
